@@ -364,3 +364,43 @@ Definition m_init : stack := [(0, ∅)].
 Definition run_m (ops : list op) : stack := foldl (λ R o, (m_step R o).1) m_init ops.
 Definition run_t (ops : list op) : tree := foldl (λ T o, (t_step T o).1) ∅ ops.
 
+(** ** The child-resolution rule of the pinned (unrepaired) code, kept for documentation
+
+    [overlay.py] [IH5InnerNode._children] on the pinned tree records [is_virtual[k]] at the
+    newest sighting only and never updates it: if the newest sighting of a path is a virtual
+    group, *every* older sighting above the lower bound lowers the creation index, also those
+    older than a non-virtual sighting.  [OverlayProofs.scan_pinned_refuted] shows that this
+    rule breaks transparency. *)
+Fixpoint scan_oldest (l : stack) (p : path) : option (nat * rentry) :=
+  match l with
+  | [] => None
+  | (i, c) :: rest =>
+      match scan_oldest rest p with
+      | Some r => Some r
+      | None => match c !! p with Some e => Some (i, e) | None => None end
+      end
+  end.
+
+Fixpoint scan_pinned (l : stack) (p : path) : option (nat * rentry) :=
+  match l with
+  | [] => None
+  | (i, c) :: rest =>
+      match c !! p with
+      | None => scan_pinned rest p
+      | Some (RGroup false) =>
+          match scan_oldest rest p with None => Some (i, RGroup false) | Some r => Some r end
+      | Some e => Some (i, e)
+      end
+  end.
+
+Fixpoint status_pinned (R : stack) (p : path) : option (nat * rentry) :=
+  match p with
+  | [] => Some (0, RGroup false)
+  | s :: par =>
+      match status_pinned R par with
+      | Some (lb, e) => if holds par e s then post (scan_pinned (above lb R) p) else None
+      | None => None
+      end
+  end.
+
+Definition vget_pinned (R : stack) (p : path) : option tentry := erase (status_pinned R p).
